@@ -11,15 +11,16 @@ use std::{
     collections::HashSet,
     future::Future,
     pin::Pin,
-    sync::{
-        atomic::{AtomicUsize, Ordering},
-        LazyLock, Mutex,
-    },
+    sync::{atomic::Ordering, LazyLock, Mutex},
     task::Poll,
     time::SystemTime,
 };
 
 use crux_core::capability::CapabilityContext;
+#[cfg(crux_verif)]
+use crux_core::verif::sync::atomic::AtomicUsize;
+#[cfg(not(crux_verif))]
+use std::sync::atomic::AtomicUsize;
 
 pub use protocol::{duration::Duration, instant::Instant, TimeRequest, TimeResponse, TimerId};
 
